@@ -381,4 +381,20 @@ def aggregate2 (es : List AEv) : Agg2 :=
     pcts := [0, 25, 50, 75, 100].map (fun p => aggPercentile p es),
     stdDefined := aggStdDevDefined es }
 
+/-! ### min / max over the extended reals (`XV` cases): the property's letter, not the fold -/
+
+/-- `r` is the least (`le := XNum.le`) / greatest (`le := flip XNum.le`) numeric value of the window: `none` exactly when the
+window has no numeric value; NaN exactly when every numeric value is NaN; otherwise a non-NaN member that bounds every
+non-NaN member. -/
+def xExtremeOk (le : XNum → XNum → Bool) (vs : List (Option XNum)) (r : Option XNum) : Bool :=
+  let v := vs.filterMap id
+  let nn := v.filter (· != .nan)
+  match r with
+  | none => v.isEmpty
+  | some .nan => !v.isEmpty && nn.isEmpty
+  | some x => nn.contains x && nn.all (fun y => le x y)
+
+def xMinOk (vs : List (Option XNum)) (r : Option XNum) : Bool := xExtremeOk XNum.le vs r
+def xMaxOk (vs : List (Option XNum)) (r : Option XNum) : Bool := xExtremeOk (fun a b => XNum.le b a) vs r
+
 end C12
